@@ -99,6 +99,7 @@ func main() {
 			d.stores.closeAll()
 		}
 		allMu.Unlock()
+		closeChainRig()
 		cleanupTmp()
 	}()
 	core.Main(&core.Family{
